@@ -450,7 +450,7 @@ Proof.
   intros c from m rp rest s RR A. unfold effective_hop, choose_hop. rewrite RR, A. split; [reflexivity|].
   split; [reflexivity|]. intros keep. unfold route_consumed. unfold remaining_routes, drop_own in RR.
   destruct (route_view m) as [|[e1|v] r]; try discriminate.
-  destruct (designates c from e1); cbn [skipn]; rewrite RR; reflexivity.
+  destruct (designates c from e1); cbn [skipn]; [rewrite RR; reflexivity|reflexivity].
 Qed.
 
 (* ------------------------------------------------------------------ c. the pool *)
